@@ -93,6 +93,12 @@ type pfxKey struct {
 func runPrefix(c *Ctx) {
 	c.SetCases("From Verif Require Import Base PrefixPlugin PrefixRun.", "PrefixRun.mismatches")
 	c.shard = 30
+	defer func() {
+		// the same plugin instance behind two listeners of a server started with server.Start
+		c.SetCases(asmCasesHdr, "AsmRun.mismatches")
+		c.shard = 12
+		startScenarioPD(c)
+	}()
 	r := c.R
 	pools := []pfxPool{{"2001:db8::/62", 64}, {"2001:db8:0:100::/56", 64}, {"2001:db8:0:218::/60", 64} /* written with host bits set */, {"fd00::/126", 128}, {"2001:db8:1::/48", 56}, {"2001:db8::/63", 64}, {"2001:db8:ffff:ff00::/61", 64}}
 	nh := c.Scale(60, 1500)
